@@ -43,6 +43,10 @@ class MelodyBetween(Stream):
     def gen(self, rng, n):
         for _ in range(n):
             notes = [sg.rand_rnote(rng) for _ in range(rng.randrange(1, 8))]
+            if rng.random() < 0.2:                       # zero-length notes (the duration clause and the model both cover them)
+                for x in notes:
+                    if rng.random() < 0.3:
+                        x["dur"] = F(0)
             pts, total = cut_points(rng, [{"parts": [["p", notes]]}])
             a = rng.choice(pts)
             b = rng.choice([p for p in pts if p > a] or [a + 1])
@@ -204,6 +208,72 @@ class ScoreBetween(Stream):
                 yield dict(case, score=s)
 
 
+def zero_tail_ends(score):
+    """the chord ends at which some part finishes its chord with a zero-length element (nothing after it advances the clock)"""
+    t, out = F(0), set()
+    for c in score:
+        t += max([sum(F(n["dur"]) for n in notes) for _, notes in c["parts"]], default=F(0))
+        if any(notes and F(notes[-1]["dur"]) == 0 for _, notes in c["parts"]):
+            out.add(t)
+    return out
+
+
+class ScoreBetweenZero(ScoreBetween):
+    """the same windows and cuts over scores that contain zero-length notes.  The model covers them like any other note; the oracle judges
+    the duration always, and the window's content and the re-join unless the window starts / the score is cut exactly where a chord ENDS on a
+    zero-length element, or the score itself ends on one (the statement's half-open windows do not say which side such a note belongs to,
+    and the library gives it to neither: DESIGN 0.7)"""
+    name = "score_between_zero_length"
+    quick, thorough = 500, 8000
+
+    def gen(self, rng, n):
+        for i in range(n):
+            sc = sg.rand_score(rng, max_chords=3, rel=0.0, accs=False)
+            for c in sc:
+                for _, notes in c["parts"]:
+                    for x in notes:
+                        if rng.random() < 0.2:
+                            x["dur"] = F(0)
+            sc = sg.equalize(sc)
+            pts, total = cut_points(rng, sc)
+            if total == 0:
+                continue
+            a = rng.choice([p for p in pts if p < total] or [F(0)])
+            b = rng.choice([p for p in pts if p > a] or [a + 1])
+            yield {"score": sc, "a": a, "b": b, "t": rng.choice([p for p in pts if 0 < p < total] or [total / 2])}
+
+    def spec(self, case, r):
+        if mlang.is_exc(r):
+            return {"sig": "score-between-raises", "msg": str(r)}
+        a, b, t, total = F(case["a"]), F(case["b"]), F(case["t"]), r["total"]
+        if r["dur"] != min(b, total) - a:
+            return {"sig": "window-duration", "msg": f"[{a},{b}) of {total}: window lasts {r['dur']}"}
+        open_ends = zero_tail_ends(case["score"])
+        if any(sg.total_dur([c]) == 0 for c in case["score"]):
+            return None                                   # a chord without length: its place in time is every boundary at once
+        if a not in open_ends:
+            want, got = window_of(r["sound"], a, b), r["wsound"]
+            for nm in want:
+                if got.get(nm, []) != want[nm]:
+                    return {"sig": "window-content:zero-length", "msg": f"part {nm} in [{a},{b}): {got.get(nm)} expected {want[nm]}"}
+        if "joined" in r and t not in open_ends and total not in open_ends:
+            if r["joined_dur"] != total:
+                return {"sig": "rejoin-duration", "msg": f"cut at {t}: {r['joined_dur']} vs {total}"}
+            for nm in r["sound"]:
+                if r["joined"].get(nm, []) != r["sound"][nm]:
+                    return {"sig": "rejoin-sound:zero-length", "msg": f"cut at {t}, part {nm}: {r['joined'].get(nm)} vs {r['sound'][nm]}"}
+        return None
+
+    def nontrivial(self, case, r):
+        return any(F(x["dur"]) == 0 for c in case["score"] for _, notes in c["parts"] for x in notes)
+
+    def hist_keys(self, case, r):
+        nz = sum(1 for c in case["score"] for _, notes in c["parts"] for x in notes if F(x["dur"]) == 0)
+        oe = zero_tail_ends(case["score"])
+        return ["zero-length-notes=%d" % min(nz, 3), "window-none" if (not mlang.is_exc(r) and r["window"] is None) else "window-some",
+                "content-judged" if F(case["a"]) not in oe else "content-open", "rejoin-judged" if (F(case["t"]) not in oe and sg.total_dur(case["score"]) not in oe) else "rejoin-open"]
+
+
 class RepeatUntil(Stream):
     name = "repeat_until_duration"
     mods = MODEL_MODS
@@ -300,4 +370,4 @@ class EditedScore(Stream):
 
 
 def streams():
-    return [MelodyBetween(), ScoreBetween(), RepeatUntil(), EditedScore()]
+    return [MelodyBetween(), ScoreBetween(), ScoreBetweenZero(), RepeatUntil(), EditedScore()]
